@@ -250,6 +250,9 @@ func (info ScriptListInfo) encode() []byte {
 
 	totalSize := 2 + 6*len(scriptLangs) // scriptCount, scriptRecords
 	for _, sRec := range scriptList {
+		if totalSize > 0xFFFF {
+			panic("script list too large")
+		}
 		sRec.offset = uint16(totalSize)
 		langCount := 0
 		for _, tag := range scriptLangs[sRec.script] {
@@ -258,6 +261,9 @@ func (info ScriptListInfo) encode() []byte {
 				langCount++
 			}
 			langSys := info[tag]
+			if len(langSys.Optional) > 0xFFFF {
+				panic("too many features in language system")
+			}
 			// lookupOrderOffset, requiredFeatureIndex, featureIndexCount, featureIndices:
 			totalSize += 6 + len(langSys.Optional)*2
 		}
@@ -312,6 +318,9 @@ func (info ScriptListInfo) encode() []byte {
 			pos += 6 + len(defaultRecord.langSys.Optional)*2
 		}
 		for _, lRec := range langSysRecords {
+			if pos > 0xFFFF {
+				panic("script table too large")
+			}
 			lRec.offs = uint16(pos)
 			pos += 6 + len(lRec.langSys.Optional)*2
 		}
